@@ -18,6 +18,13 @@ static const CAmount COIN = 100000000;
 // that such a unit still compiles and the contract - every amount goes through the exact fixed-point parser - decides it
 inline double strtod(const char* s, char** e) { size_t k = nondet_size(); __CPROVER_assume(k < VERIF_STR_CAP); if (e) *e = (char*)s + k; double d; return d; }
 inline double atof(const char* s) { double d; return d; }
+// snprintf(dst, n, "%.*s", prec, src) - the bounded-copy idiom - as a real bounded copy (a non-variadic overload wins over any variadic one)
+inline int snprintf(char* dst, size_t n, const char* fmt, int prec, const char* src) {
+    size_t k = 0;
+    for (size_t i = 0; i < VERIF_STR_CAP; ++i) { if ((int)i >= prec || src[i] == 0 || i + 1 >= n) break; dst[i] = src[i]; k = i + 1; }
+    if (n > 0) dst[k] = 0;
+    return prec;
+}
 extern char g_dup[VERIF_STR_CAP]; extern int g_dup_live;
 inline char* strndup(const char* s, size_t n) { VERIF_LIMIT(n < VERIF_STR_CAP, "strndup capacity"); for (size_t i = 0; i < VERIF_STR_CAP - 1; ++i) { if (i >= n || s[i] == 0) { g_dup[i] = 0; break; } g_dup[i] = s[i]; } g_dup[VERIF_STR_CAP - 1] = 0; g_dup_live = g_dup_live + 1; return g_dup; }
 inline void free(void* p) { __CPROVER_assert(p == (void*)g_dup && g_dup_live == 1, "free() of exactly the buffer strndup returned, once"); g_dup_live = g_dup_live - 1; }
